@@ -57,6 +57,10 @@ class C10(Prop):
                 "NV.C10.sweepSecond_ok",
                 "NV.C10.sweepLoop_ok",
                 "NV.C10.sweep_ok",
+                "NV.C10.sweepCore_ok",
+                "NV.C10.applyOp_rest",
+                "NV.C10.applyOp_sim",
+                "NV.C10.sweepCore_sim",
                 "NV.C10.stepCmd_rest",
                 "NV.C10.runCmds_rest",
                 "NV.C10.wheel_unique",
@@ -107,8 +111,8 @@ class C10(Prop):
             "call_out/remove/find (by name and handle)/remove-all/destruct/error at top level and inside call_out "
             "callbacks, delays on both sides of the wheel size, tick spacings 0..200 incl. backlog; a case is "
             "non-trivial when its trace has >= 2 lines; distinct = distinct canonical implementation trace")
-    not_covered = ["THIS_PLAYER_IN_CALL_OUT command_giver restoration is not modelled",
-                   "function-pointer call_outs (cop->ob == 0) are not generated",
+    not_covered = ["the O_LISTENER branch of call_out() (the flag is never set in this driver: dead code)",
+                   "reload_object (= remove_all_call_out + variable reset) is exercised only through remove_call_out()",
                    "int overflow of the handle after 2^26 call_outs"]
 
     def gen_extra(self, ctx, bdir):
@@ -178,6 +182,13 @@ class C10(Prop):
                                     "vapply o2 do_op cofp,1,5,b", "vapply o2 do_op info", "adv 5", "sweep"])
         mk("fp-in-callback", ["vapply o1 set_script co:a cofp,1,32,b;fh,b;rmh,b;cofp,2,1,c", "vapply o1 do_op cofp,0,1,a",
                               "adv 1", "sweep", "adv 1", "sweep", "adv 40", "sweep"])
+        # THIS_PLAYER_IN_CALL_OUT: command_giver saved by new_call_out, restored for the callback
+        mk("giver-basic", ["gop o2 o1 co,0,2,a", "vapply o1 do_op co,1,2,b", "gop o1 o1 cofp,2,3,c", "adv 3", "sweep"])
+        mk("giver-destructed", ["gop o2 o1 co,0,2,a", "vapply o1 do_op dest,o2", "gop o2 o1 co,1,2,b", "adv 2", "sweep"])
+        mk("giver-inherited-in-callback", ["vapply o1 set_script co:a co,1,1,b;dest,o2;co,2,1,c", "gop o2 o1 co,0,1,a",
+                                           "adv 1", "sweep", "adv 1", "sweep"], nobj=3)
+        mk("giver-restored-after-sweep", ["gop o2 o1 co,0,1,a", "adv 1", "sweep", "vapply o1 do_op co,1,1,b",
+                                          "gop o3 o1 co,2,1,c", "adv 1", "sweep"], nobj=3)
         mk("reschedule-chain", ["vapply o1 set_script co:a co,0,1,b", "vapply o1 set_script co:b co,0,32,c",
                                 "vapply o1 set_script co:c co,0,31,d", "vapply o1 do_op co,0,1,a", "adv 1", "sweep",
                                 "adv 1", "sweep", "adv 32", "sweep", "adv 31", "sweep"])
@@ -222,7 +233,10 @@ class C10(Prop):
                     # scripts registered by gen_ops must precede the op that schedules the tag
                     body += st["scripts"]
                     st["scripts"] = []
-                    body.append("vapply o%d do_op %s" % (o, op))
+                    if rng.chance(1, 4):
+                        body.append("gop o%d o%d %s" % (rng.range(1, nobj), o, op))
+                    else:
+                        body.append("vapply o%d do_op %s" % (o, op))
             elif k == "adv":
                 body.append("adv %d" % rng.weighted(ADV))
             elif k == "sweep":
